@@ -61,6 +61,7 @@ type scenario struct {
 	Clients map[string]string // client -> host (documentation only; calls name their host)
 	Tick    int
 	ReleaseHeavy bool
+	SpillHeavy   bool
 }
 
 type drv struct {
